@@ -785,8 +785,8 @@ def run_go(exe, scripts, shards=6, test="TestVerifClientScript", timeout=600):
     # a watchdog hit poisons the rest of its shard ("skipped"), a crash of the test binary loses the
     # rest of its shard: rerun those alone; a script that still gives nothing is marked as a crash
     redo = [i for i, o in enumerate(res) if o is None or o.get("st") == "skipped"]
-    for i in redo[:60]:
-        rc, lines, log = vlib.run_harness(exe, test, json.dumps(scripts[i]) + "\n", timeout=120, tag="_r%d" % i)
+    for i in redo[:12]:
+        rc, lines, log = vlib.run_harness(exe, test, json.dumps(scripts[i]) + "\n", timeout=45, tag="_r%d" % i)
         try:
             res[i] = json.loads(lines[0]) if lines else None
         except ValueError:
@@ -815,8 +815,11 @@ def staged(exe, scripts, is_bad, probe=16):
     if len(scripts) <= probe:
         return scripts
     pg, _ = run_go(exe, scripts[:probe], shards=8)
+    odd = ("timeout", "broken", "short-header", "short-payload", "bad-lenfield", "timeout-after")
     for s, g in zip(scripts[:probe], pg):
         if g is None or g.get("st") in ("crash", "watchdog", "skipped") or is_bad(s, g):
+            return scripts[:probe]
+        if any(o.get("st") in odd or o.get("res") in odd for o in (g.get("obs") or [])):
             return scripts[:probe]
     return scripts
 
